@@ -17,7 +17,8 @@ THEOREMS_BY_PROP = {
             "DepLogic.Lex.parseClauseL_final",
             "DepLogic.M.fromSpecOk_of_lex", "DepLogic.M.pyMergeOk_of_fromSpec", "DepLogic.C02.env0_total",
             "DepLogic.C02.atomFull_good", "DepLogic.C02.atomPvGt_good", "DepLogic.M.pvsem_halfopen",
-            "DepLogic.M.render_halfopen", "DepLogic.M.fromClause_pv2"],
+            "DepLogic.M.render_halfopen", "DepLogic.M.fromClause_short", "DepLogic.C02.atomRevCompat_good",
+            "DepLogic.C02.atomPv3_good"],
     "C03": ["DepLogic.C03.build_sound", "DepLogic.C03.build_sound_final", "DepLogic.M.sound_all", "DepLogic.M.singleSound"],
     "C07": ["DepLogic.C07.str_empty_any", "DepLogic.C07.items_sem", "DepLogic.C07.reparse_sound", "DepLogic.C07.reparse_sound_final",
             "DepLogic.C07.items_ok",
@@ -556,6 +557,11 @@ def complement_exprs(rng):
            E("or", L(f"({t_} and {a}) or {s_}"), L(f"{s_} or ({mk.atom(rng)} and {na})")),
            E("or", L(f"{s_} or ({t_} and ({a} or {mk.atom(rng)}))"), L(f"{s_} or {na}")),
            E("and", L(f"({t_} or {a}) and {s_}"), L(f"{s_} and ({mk.atom(rng)} or {na})")),
+           # a union whose cnf/dnf are more complex than itself, joined with an empty marker: union() must not keep the
+           # empty operand in its raw candidate (fixed defect D13a, seed C07c)
+           E("or", L(f"({a} and {s_}) or ({na} and {t_})"), L('os_name == "zz1" and os_name == "zz2"')),
+           E("or", L(f"({a} and {s_}) or ({na} and {t_})"), E("empty")),
+           E("and", L(f"({a} or {s_}) and ({na} or {t_})"), E("any")),
            E("exclude", L(f'({a} and {s_} and extra == "x") or ({na} and {s_})'), "extra"),
            E("only", L(f'({a} and {s_} and os_name == "zz") or ({na} and {s_})'), tuple(sorted(variables(mk.parse_marker(f"{a} and {na} and {s_}")))))]
     return out
@@ -579,6 +585,11 @@ def run_shape(run: core.Run, prop: str, n: int) -> None:
             exprs.append(E("only", E("leaf", a), tuple(rng.sample(vs, min(len(vs), rng.randint(1, 2))))))
             exprs.append(E("exclude", E("leaf", a), rng.choice(vs + ["extra"])))
             exprs.append(E("or", E("and", E("leaf", a), E("leaf", b)), E("leaf", mk.atom(rng))))
+        # an atom (of every class, the never-merged ones included) combined with itself, alone and inside compounds
+        x = mk.atom(rng)
+        exprs += [E("and", E("leaf", x), E("leaf", x)), E("or", E("leaf", x), E("leaf", x)),
+                  E("and", E("leaf", f"({b}) and {x}"), E("leaf", f"{x} and ({a})")),
+                  E("or", E("leaf", f"({b}) or {x}"), E("leaf", f"{x} or ({a})"))]
         if i % 2 == 0:
             try:
                 exprs += complement_exprs(rng)
